@@ -2,8 +2,36 @@ from props import job
 
 PROP = dict(
     level="exploration",
-    rule=("TBD"),
-    assumptions=[],
+    technique="rapid state machine against a reference chain model (model-based, per-client event logs)",
+    rule=("A case is a generated history of 5..45 (thorough: ..70) actions against a real "
+          "chainntnfs.TxNotifier: connect (ConnectTip+NotifyHeight, sometimes with registrations/"
+          "cancels/rescan answers squeezed between the two calls), disconnect (never deeper than "
+          "reorgSafetyLimit-1 below the highest tip seen; limit drawn from {2..6,144}), "
+          "HandleMissedBlocks/RewindChain branch switches, RegisterConf/RegisterSpend by txid/outpoint "
+          "and by script with valid, boundary, future and (rarely) too-high hints, several clients per "
+          "request, Cancel, restart (TearDown + new notifier on the same hint cache), and answers to "
+          "HistoricalDispatch requests given *later* from the model's then-active chain "
+          "(Update{Conf,Spend}Details / ProcessRelevantSpendTx). Universe: 1-3 watched outpoints, each "
+          "with two conflicting spenders (RBF-like: same or different output script), P2WKH/P2WSH/P2TR/"
+          "nested-P2WKH inputs. After every notifier call all channels are drained and the per-client "
+          "oracle runs. Non-trivial = a block containing a watched tx/spend of a notified client was "
+          "disconnected and the request was satisfied again later (re-inclusion / conflicting spender), "
+          "or a rescan that finds the tx/spend was answered after >=1 further connect. Distinct = "
+          "distinct full histories (actions + emitted events)."),
+    level_note=("soundness (every event true on the active chain, <=1 outstanding Confirmed/Spend, reorg "
+                "notice in the very call that removes the inclusion block, exact confs-left, reorg depth, "
+                "Done only after maturity, channel capacity never exceeded in one call), completeness "
+                "(after the request's rescan was answered: included => told, >=numConfs => Confirmed "
+                "outstanding, spent => Spend outstanding) and the hint bound (persisted hint <= real "
+                "confirmation/spend height; <= tip+1 while unconfirmed) are evaluated after each call."),
+    assumptions=[
+        "client height hints are lower bounds of the real confirmation/spend height (the documented contract); requests that received a too-high hint keep only the soundness checks",
+        "a rescan is answered atomically from the chain the notifier has been told about at that moment (no backend that runs ahead of / behind the TxNotifier inside one rescan)",
+        "every client drains its channels after every notifier call (no slow consumers); goroutine-level concurrency of the notifier (it is fully serialised by its mutex) is not explored",
+        "no address reuse: at most one transaction on the active chain pays a watched script / spends a watched script (documented as ignored by the notifier)",
+        "reorgs while a request is not registered in the running notifier (node offline, or before re-registration after a restart) may invalidate hints persisted earlier (documented limitation, CacheConfig.QueryDisable); such requests leave the hint/completeness domain",
+        "three candidate findings are excluded by construction while listed as known (see notes/C14.md)",
+    ],
     jobs=dict(
         quick=[
             job("chainntnfs", "^TestVerifC14Machine$", ["TestVerifC14Machine"], 6000, shards=6),
@@ -12,7 +40,8 @@ PROP = dict(
         thorough=[
             job("chainntnfs", "^TestVerifC14Machine$", ["TestVerifC14Machine"], 60000, shards=16, timeout=1500,
                 env=dict(VERIF_C14_LEN=70)),
-            job("chainntnfs", "^TestVerifC14MachineBolt$", ["TestVerifC14MachineBolt"], 600, shards=8, timeout=1500),
+            job("chainntnfs", "^TestVerifC14MachineBolt$", ["TestVerifC14MachineBolt"], 600, shards=8, timeout=1500,
+                env=dict(VERIF_C14_LEN_BOLT=45)),
         ],
     ),
 )
